@@ -143,12 +143,24 @@ def crash_enumeration(tier, seed):
 
 def staking(tier, seed):
     rnd = random.Random("%d/staking" % seed)
-    return (gens_staking.targeted() + gens_staking.staking(rnd, {"quick": 60, "thorough": 1500}[tier])
+    # behaviours of the staking model (MCStaking, real periods): two transactions and evidence in three blocks; exits followed by a jump of
+    # exactly / one short of the move and unbond periods
+    model = vlib.tlc_generate("MCStaking", "gen/MCStakingGen.cfg", "W2u", "staking")
+    jumps = vlib.tlc_generate("MCStaking", "gen/MCStakingGen_skip.cfg", "W2u", "staking")
+    jumps = [dict(s, id="J" + s["id"]) for s in jumps]
+    return (sample(rnd, model, {"quick": 150, "thorough": 4000}[tier]) + sample(rnd, jumps, {"quick": 50, "thorough": 1500}[tier])
+            + gens_staking.targeted() + gens_staking.staking(rnd, {"quick": 60, "thorough": 1500}[tier])
             + gens_staking.crowd(rnd, {"quick": 6, "thorough": 60}[tier]) + regress("staking"))
 
 
-# no TLC model of the staking / pool actions exists yet: these families are decided on traces of the real node only
-MC["staking"] = None
+STAKING_REACH_EXITS = ["DelegateOk", "DelegateFromWaitList", "DelegateTooBig", "DelegateNoCandidate", "StakeNotPositive", "UnbondOk", "UnbondFromWaitList",
+                       "UnbondWholeStake", "StakeNotFound", "InsufficientStake", "InsufficientWaitList", "MoveOk", "MoveFromWaitList", "MoveEqualKeys", "LockStakeOk",
+                       "UnbondBlocked", "SwitchOffByControl", "SwitchByStranger", "SwitchOnOk", "FundsMature", "UnbondedFundsReturn", "MoveArrives", "Payout",
+                       "UpdateBetweenPayouts", "ValidatorLeaves", "ValidatorLeavesWithAccum", "ValidatorJoins", "UpdatesMerged", "EmptiedStakeGone"]
+STAKING_REACH_PUNISH = ["TooAbsent", "JailedForAbsence", "SwitchedOffInGrace", "SwitchOnJailed", "SwitchOnAfterJail", "Evidence", "EvidenceTwice",
+                        "EvidenceWithUnbondingFunds", "EvidenceWithFundsDueNow", "EvidenceAgainstOffline", "EvidenceAndAbsenceTogether", "Payout", "ValidatorLeaves"]
+MC["staking"] = {"quick": [("MCStaking", "mc/MCStaking_exits.cfg", {"reach": STAKING_REACH_EXITS}), ("MCStaking", "mc/MCStaking_punish.cfg", {"reach": STAKING_REACH_PUNISH})],
+                 "thorough": [("MCStaking", "mc/MCStaking_exits_t.cfg", {"reach": STAKING_REACH_EXITS}), ("MCStaking", "mc/MCStaking_punish_t.cfg", {"reach": STAKING_REACH_PUNISH})]}
 def markets(tier, seed):
     rnd = random.Random("%d/markets" % seed)
     pool_model = gens_markets.from_pool_model(vlib.tlc_generate_raw("MCPools", "gen/MCPoolsGen.cfg", big=True))
